@@ -14,7 +14,7 @@ abbrev Se := Th × Nat × Nat
 structure SSt where
   obj : Nat
   calls : Nat
-  seed : Option Nat
+  seed : Int   -- last seed assigned; -1 = None, -2 = entropy seed assigned by a scheduler constructor
 
 def thEq (a b : Th) : Bool := a.map Float.toBits == b.map Float.toBits
 
@@ -40,7 +40,7 @@ def comp (sc : Scenario) : Comp Th Se Float SSt where
       | none => sc.lossDefault
   sample smp _ _ := ({ smp.st with calls := smp.st.calls + 1 },
                      ((sc.scripts.getD smp.st.obj []).getD smp.st.calls []))
-  reseed _ seed st := { st with seed := some seed }
+  reseed _ seed st := { st with seed := (seed : Int) }
   tape k := sc.tape.getD k 0
   lt a b := a < b
   conv x p := Float.abs (x * pow10 p) ≤ 0.5
@@ -57,13 +57,13 @@ inductive Op where
 /-! parsing -/
 def pSmp : P (Smp SSt) := do
   let cls ← nat; let bs ← nat; let obj ← nat; let calls ← nat; let seed ← int
-  pure { cls := cls, batchSize := bs, st := { obj := obj, calls := calls, seed := if seed < 0 then none else some seed.toNat } }
+  pure { cls := cls, batchSize := bs, st := { obj := obj, calls := calls, seed := seed } }
 
 def pSched : P Sched := do
   let t ← tok
   match t with
   | "rr" => pure (.rr 0)
-  | "rl" => do let b ← nat; pure (.rl b false 0)
+  | "rl" => pure (.rl 0 false 0)   -- bootstrap index computed by `addOrGetBootstrap` below
   | _ => failure
 
 def pFault : P (FaultKind × Nat) := do
@@ -93,6 +93,13 @@ def pScenario : P (Scenario × List Op) := do
   let lossTable ← list (do let th ← rep flt dims; let l ← flt; pure (th, l))
   let lossDefault ← flt
   let ops ← list pOp
+  -- RLScheduler.__init__: find or append the bootstrap (Halton, class index 6) sampler
+  let (samplers, sched) := match sched with
+    | .rl _ _ _ =>
+      let nh : Smp SSt := { cls := 6, batchSize := 1, st := { obj := samplers.length, calls := 0, seed := -2 } }
+      let r := addOrGetBootstrap (fun c => c == 6) nh samplers
+      (r.1, Sched.rl r.2 false 0)
+    | s => (samplers, s)
   let cfg : Cfg := { ensemble := ens, simLen := n, convPrec := if cp < 0 then none else some cp.toNat,
                      verbose := verbose, nJobs := nj, folder := folder }
   pure ({ cfg, samplers, sched, tape, actions, faults, scripts, lossTable, lossDefault }, ops)
@@ -114,7 +121,7 @@ def dump (s : State Th Se Float SSt) : String :=
   s!"ms=[{showNatL k.method}] sched={showSched k.sched} gen={k.gen} " ++
   s!"table=[{";".intercalate (s.table.map (fun p => s!"{p.1}:{p.2}"))}] " ++
   s!"smp=[{";".intercalate (k.samplers.map (fun m => s!"{m.cls}:{m.batchSize}:{m.st.obj}:{m.st.calls}:" ++
-      (match m.st.seed with | some x => toString x | none => "-")))}]"
+      (if m.st.seed == -1 then "-" else if m.st.seed == -2 then "?" else toString m.st.seed)))}]"
 
 def showResult (r : List (Th × Float)) : String :=
   ";".intercalate (r.map (fun p => s!"{showTh p.1}={floatToHex p.2}"))
